@@ -34,7 +34,46 @@ func obsEditor(e rosed.Editor) string {
 
 func digitsOf(n int) string { return strconv.Itoa(n) }
 
+// Callback results are handed to the library as windows of longer arrays whose spare capacity holds
+// sentinels (seeded change C08i: `append` into the slice a callback returned writes into the caller's
+// memory). guardsIntact is checked after the operation.
+const cbSentinel = "\x00SENTINEL\x00"
+
+var cbGuards [][2][]string // (full buffer, copy of what was returned)
+
+func guardSlice(res []string) []string {
+	if res == nil {
+		return nil
+	}
+	buf := make([]string, len(res)+3)
+	copy(buf, res)
+	for i := len(res); i < len(buf); i++ {
+		buf[i] = cbSentinel
+	}
+	cbGuards = append(cbGuards, [2][]string{buf, append([]string(nil), res...)})
+	return buf[:len(res)]
+}
+
+func guardsIntact() bool {
+	ok := true
+	for _, g := range cbGuards {
+		buf, want := g[0], g[1]
+		for i := range buf {
+			if i < len(want) && buf[i] != want[i] || i >= len(want) && buf[i] != cbSentinel {
+				ok = false
+			}
+		}
+	}
+	cbGuards = cbGuards[:0]
+	return ok
+}
+
 func lineFn(id int, log *[]string) rosed.LineOperation {
+	f := lineFn0(id, log)
+	return func(idx int, line string) []string { return guardSlice(f(idx, line)) }
+}
+
+func lineFn0(id int, log *[]string) rosed.LineOperation {
 	return func(idx int, line string) []string {
 		*log = append(*log, encText(line))
 		switch id {
@@ -69,6 +108,11 @@ func lineFn(id int, log *[]string) rosed.LineOperation {
 }
 
 func paraFn(id int, log *[]string) rosed.ParagraphOperation {
+	f := paraFn0(id, log)
+	return func(idx int, para, pre, suf string) []string { return guardSlice(f(idx, para, pre, suf)) }
+}
+
+func paraFn0(id int, log *[]string) rosed.ParagraphOperation {
 	return func(idx int, para, pre, suf string) []string {
 		*log = append(*log, encText(para)+"_"+encText(pre)+"_"+encText(suf))
 		switch id {
@@ -369,6 +413,9 @@ func evalStep(pool []entry, step string) (ent entry, obs string) {
 			res = e.ApplyOpts(lineFn(f, &log), o)
 		}
 		en, ob := edRes(res)
+		if !guardsIntact() {
+			return bad, "X~argmut"
+		}
 		if en.bad {
 			return en, ob
 		}
@@ -390,6 +437,9 @@ func evalStep(pool []entry, step string) (ent entry, obs string) {
 			res = e.ApplyParagraphsOpts(paraFn(f, &log), o)
 		}
 		en, ob := edRes(res)
+		if !guardsIntact() {
+			return bad, "X~argmut"
+		}
 		if en.bad {
 			return en, ob
 		}
